@@ -99,6 +99,9 @@ func features(c Case) string {
 	if c.Long {
 		set["long-run"] = true
 	}
+	if c.sharedCount() >= 2 {
+		set["rerun"] = true
+	}
 	for _, b := range c.blocks() {
 		featuresOf(b, set)
 	}
@@ -117,6 +120,8 @@ func featuresOf(b []Stmt, set map[string]bool) {
 			set["recursion"] = true
 		case "gp":
 			set["hostpanic"] = true
+		case "ie":
+			set["runtime-error"] = true
 		case "rt":
 			set["rethrow"] = true
 		case "b":
@@ -452,10 +457,36 @@ func (r *runner) check(c Case, replayMode bool) {
 
 // how a report names the parts of a program that are rendered without their marker
 func bareNote(c Case) string {
+	note := ""
 	if q := c.quietList(); q != "" {
-		return " [rendered without the markers " + q + "]"
+		note = " [rendered without the markers " + q + "]"
 	}
-	return ""
+	if c.sharedCount() >= 2 {
+		var calls []Stmt
+		sharedCalls(c.Prog, &calls)
+		kinds := map[string]bool{}
+		walk(c.Prog, func(s Stmt) {
+			if s.K == "ie" {
+				kinds[ieKinds[s.N%len(ieKinds)].name] = true
+			}
+		})
+		var ks []string
+		for k := range kinds {
+			ks = append(ks, k)
+		}
+		sort.Strings(ks)
+		note += fmt.Sprintf(" [the %d calls f{ … } are calls of ONE %s whose body is rendered once, the differing leaves under `if ($w == j)`: every call executes the SAME try statements; PHP's rules are applied to the program as written, a fresh copy per call", len(calls), map[string]string{"h": "function", "hm": "method of one object", "hs": "static method", "hc": "closure"}[func() string {
+			if len(calls) > 0 {
+				return calls[0].Via
+			}
+			return "h"
+		}()])
+		if len(ks) > 0 {
+			note += "; gp written for the interpreter-raised error " + strings.Join(ks, ", ")
+		}
+		note += "]"
+	}
+	return note
 }
 
 func countTok(toks []string, p string) []string {
@@ -540,6 +571,20 @@ func Run(c *vh.Ctx) {
 		r.check(w, false)
 		c.Hit("stream:witness")
 	}
+	if os.Getenv("C05_ONLY") == "rerun" { // development aid: the re-execution stream alone
+		usable, excluded := probeKinds()
+		n := 0
+		enumRerun(c.Thorough(), usable, func(cs Case) { r.check(cs, false); n++ })
+		for i := 0; i < c.N(400, 8000); i++ {
+			r.check(randRerunCase(c.Rand, usable), false)
+		}
+		c.HitN("stream:rerun", n)
+		c.Note("C05_ONLY=rerun: %d programs in %.1f s; kinds usable %d, left out %v", n, c.Elapsed().Seconds(), len(usable), excluded)
+		if r.m != nil {
+			c.Res.ModelLines = r.m.Lines
+		}
+		return
+	}
 	if os.Getenv("C05_ONLY") == "shapes" { // development aid: the body-shape stream alone
 		n := 0
 		enumShapes(c.Thorough(), func(cs Case) { r.check(cs, false); n++ })
@@ -571,6 +616,26 @@ func Run(c *vh.Ctx) {
 	c.HitN("stream:shapes", nsh)
 	shapeWhat := fmt.Sprintf("; body shapes (parts rendered WITHOUT their marker, so that a catch body is exactly `throw $e;` / empty / `throw new K6` / `return` / `break` / `continue` / one echo, a finally block is empty / exactly one such statement, a try block is exactly its throw): two clauses (clause type × clause type over %s, the shape under test in position 0 or 1, the other clause keeps its marker) × finally × thrown object; three clauses with the shape in each position; two bare clauses with independent shapes; bare try blocks × bare finally blocks × 5 clause lists; a try statement that is the ONLY statement of a bare try block / catch body / finally block of another (6 inner clause lists × 3 inner finally × outer lists): %d programs", map[bool]string{false: "{same, parent, Throwable, sibling}", true: "{same, parent, Exception, Throwable, inherited interface, parent interface, sibling, union}"}[c.Thorough()], nsh)
 
+	// re-executed try statements: ONE function holding the try statement(s) is called 2..4 times, every call throwing
+	// another member of a pool (user Exception, host panic, errors the interpreter raises itself, user classes, nothing)
+	tRe := c.Elapsed()
+	usable, excluded := probeKinds()
+	for _, e := range excluded {
+		c.Hit("rerun:kind-left-out:" + strings.SplitN(e, ":", 2)[0])
+		c.Note("re-execution stream: interpreter-raised error kind not object-less on this tree, left out of the pool — %s", e)
+	}
+	c.HitN("rerun:interpreter-raised-kinds", len(usable))
+	nru := 0
+	enumRerun(c.Thorough(), usable, func(cs Case) { r.check(cs, false); nru++ })
+	c.HitN("stream:rerun", nru)
+	nrr2 := c.N(400, 8000)
+	for i := 0; i < nrr2; i++ {
+		r.check(randRerunCase(c.Rand, usable), false)
+	}
+	c.HitN("stream:random-rerun", nrr2)
+	c.Note("re-execution streams: %d + %d programs in %.1f s (%d of %d interpreter-raised error kinds in the pool)", nru, nrr2, (c.Elapsed() - tRe).Seconds(), len(usable), len(ieKinds))
+	rerunWhat := fmt.Sprintf("; re-executed try statements: one function / method of one object / static method / closure holding the try statement(s) is called k times, the slot in the try block (or in a function called from it) doing another member of the pool {throw new Exception, host panic, %d kinds of error the interpreter raises itself (measured object-less by probe try statements executed once), user classes K3, K4, nothing} in each call — clause lists {none, every single clause and every ordered pair over Error, Exception, Throwable, K3, K4, a union, two triples} × {single try, nested in try/catch (Throwable)/finally of the same function, thrown from a callee} × all sequences of length 2 (%s): %d programs, each compared with the program in which every call has its own copy of the try statements", len(usable), map[bool]string{false: "pool of 7, kinds in rotation, nested on every second list, callee-thrown on every third; length 3 over 4 members on every second list", true: "full pool; length 3 over 7, length 4 over 4 members"}[c.Thorough()], nru)
+
 	n1 := 0
 	enumDepth1(func(cs Case) { r.check(cs, false); n1++ })
 	c.HitN("stream:depth1", n1)
@@ -587,6 +652,7 @@ func Run(c *vh.Ctx) {
 
 	c.Res.ExhaustiveWhat += longWhat
 	c.Res.ExhaustiveWhat += shapeWhat
+	c.Res.ExhaustiveWhat += rerunWhat
 
 	nr := c.N(1500, 60000)
 	for i := 0; i < nr; i++ {
